@@ -135,11 +135,25 @@ pub fn apply<T: Elem>(l: &mut ItemList<T>, op: &Value) -> String {
             "-".into()
         }
         "extend" => {
-            l.extend(strs(&op["ns"]).iter().map(|n| T::make(n)));
+            // iterators of every kind of size hint: exact, a lower bound of 0 (filter), an inexact chain
+            let ns = strs(&op["ns"]);
+            match ns.len() % 3 {
+                0 => l.extend(ns.iter().map(|n| T::make(n))),
+                1 => l.extend(ns.iter().filter(|_| true).map(|n| T::make(n))),
+                _ => {
+                    let (a, b) = ns.split_at(ns.len() / 2);
+                    l.extend(a.iter().map(|n| T::make(n)).chain(b.iter().filter(|_| true).map(|n| T::make(n))));
+                }
+            }
             "-".into()
         }
         "collect" => {
-            *l = strs(&op["ns"]).iter().map(|n| T::make(n)).collect();
+            let ns = strs(&op["ns"]);
+            if ns.len() % 2 == 0 {
+                *l = ns.iter().map(|n| T::make(n)).collect();
+            } else {
+                *l = ns.iter().filter(|_| true).map(|n| T::make(n)).collect();
+            }
             "-".into()
         }
         "sort_by" => {
